@@ -89,8 +89,8 @@ def levenshtein_distance_substring(source, target, sub_cost=1, ins_cost=1, del_c
         target, source = source, target
 
     target = np.array(target)
-    dist = np.ones((1 + len(target) + 1)) * float('inf')
-    dist[0] = 0
+    dist = np.arange(1 + len(target) + 1, dtype=float) * ins_cost
+    dist[-1] = dist[-2]
     for s in source:
         dist[1:-1] = np.minimum(dist[1:-1] + del_cost, dist[:-2] + (target != s) * sub_cost)
 
@@ -111,8 +111,8 @@ def levenshtein_alignment_substring(source, target, sub_cost=1, ins_cost=1, del_
     target = np.array(target)
     backtrack = np.ones((len(source) + 1, 1 + len(target) + 1))
     backtrack[0] = -1
-    dist = np.ones((1 + len(target) + 1)) * float('inf')
-    dist[0] = 0
+    dist = np.arange(1 + len(target) + 1, dtype=float) * ins_cost
+    dist[-1] = dist[-2]
 
     for ii, s in enumerate(source):
         cost4sub = dist[:-2] + (target != s) * sub_cost
